@@ -707,11 +707,14 @@ pub struct VerifyOpts<G: AffineRepr> {
     pub cap: Option<usize>,
     pub pc_gens: Option<PedersenGens<G>>,
     pub start: Option<Transcript>,
+    /// a generator object that overstates itself: it holds `real_cap` generators per party but
+    /// its public capacity field says `cap` (a hand-edited or tampered-with serialised object)
+    pub real_cap: Option<usize>,
 }
 
 impl<G: AffineRepr> Default for VerifyOpts<G> {
     fn default() -> Self {
-        VerifyOpts { record: false, cap: None, pc_gens: None, start: None }
+        VerifyOpts { record: false, cap: None, pc_gens: None, start: None, real_cap: None }
     }
 }
 
@@ -751,7 +754,12 @@ pub fn run_verifier<G: CurveTag>(
     let shape = prog.shape();
     let cap = opts.cap.unwrap_or_else(|| prog.cap_v.resolve(shape.padded()));
     // the verifier's generator object is obtained in the next way round
-    let gens = bp_gens_mode::<G>(cap, prog.party_cap as usize, prog.gens.wrapping_add(1));
+    let mut gens = bp_gens_mode::<G>(cap, prog.party_cap as usize, prog.gens.wrapping_add(1));
+    if let Some(rc) = opts.real_cap {
+        let mut g = BulletproofGens::<G>::new(rc, prog.party_cap as usize);
+        g.gens_capacity = cap;
+        gens = Rc::new(g);
+    }
     let pc = opts.pc_gens.unwrap_or_else(|| prog_pc::<G>(prog));
     let ctx = Ctx::<G>::new(false, commitments.to_vec());
     ctx.lc_shift.set(if prog.seed % 2 == 0 { 0 } else { 3 });
